@@ -4,9 +4,9 @@ from __future__ import annotations
 import ast
 
 from ..model import (AnalysisError, U, Defs, FuncNode, calls_in, call_name, walk_fn, kwarg, enclosing,
-                     enclosing_stmt, parents, short, fn_of)
+                     enclosing_stmt, parents, short, fn_of, always_exits as common_always_exits)
 from ..symex import Symex, Obj, ClassRef, Ext, _freeze
-from ..terms import T, sym, show, subterms, calls, strip, expand_products, args_of
+from ..terms import T, sym, show, subterms, calls, strip, expand_products, args_of, t_cmp, t_not
 from . import common
 from . import c08
 from . import dx
@@ -31,24 +31,6 @@ ASSUMPTIONS = [
     "set iteration over small ints is treated as seed independent (CPython int hashing)",
 ]
 
-ORDER_FREE_CALLS = {"sorted", "set", "frozenset", "any", "all", "sum", "len", "min", "max", "Mul", "Add", "Counter"}
-# (function, iterated text) -> reason
-SET_ITER_FROZEN = {
-    ("func:evaluate_deltas", "obj.atoms(Index)"):
-        "occurrence counter; the derived target list is only used for membership tests",
-    ("spatial_orbitals:integrate_spin", "term_indices"):
-        "derived lists feed set.add / all 2^n assignments, each contributing a commutative `+=`",
-    ("spatial_orbitals:transform_to_spatial_orbitals", "idx"):
-        "old/new lists are built from one iteration (same-origin zip) and applied through order_substitutions",
-    ("tensor_names:TensorNames.rename_tensors", "expr.sympy.atoms(Symbol)"):
-        "renames of distinct default names to distinct configured names commute",
-    ("generate_code.optimize_contractions:_group_objects", "positions"):
-        "set of small ints: CPython iterates them independently of the hash seed",
-    ("factor_intermediates:_factor_long_intermediate", "set(itmd[itmd_i].expr.idx)"):
-        "derived tuple is only scanned with any(.. in ..) and printed in an error message",
-    ("factor_intermediates:_factor_short_intermediate", "set(itmd.expr.idx)"):
-        "derived tuple is only scanned with any(.. in ..) and printed in an error message",
-}
 CACHE_DECOS = ("cached_member", "cached_property")
 MUTATORS = {"append", "extend", "update", "pop", "clear", "add", "remove", "insert", "sort", "reverse", "setdefault",
             "popitem", "discard", "expand", "subs", "doit", "make_real", "substitute_contracted", "substitute_with_generic",
@@ -201,6 +183,12 @@ class CallGraph:
         return out, len(seen)
 
 
+def call_graph(ctx):
+    if getattr(ctx, "_c19_cg", None) is None:
+        ctx._c19_cg = CallGraph(ctx.model)
+    return ctx._c19_cg
+
+
 def _key_sites(ctx, cg):
     """(call node, key expression) for every call that passes a sort key: ``key=`` keyword of any callee and positional
     arguments bound to a parameter named ``key`` of a repository function"""
@@ -225,7 +213,7 @@ def _key_sites(ctx, cg):
 
 def r19a_keys(ctx):
     rule = "R19a"
-    cg = CallGraph(ctx.model)
+    cg = call_graph(ctx)
     sites = _key_sites(ctx, cg)
     ctx.floor(rule, "calls that pass a sort key", len(sites), 20)
     n_fn = 0
@@ -249,122 +237,582 @@ def r19a_keys(ctx):
     ctx.floor(rule, "function bodies reached from sort keys", n_fn, 20)
 
 
-def is_set_expr(n):
-    if isinstance(n, (ast.Set, ast.SetComp)):
-        return True
-    if isinstance(n, ast.Call):
-        if isinstance(n.func, ast.Name) and n.func.id in ("set", "frozenset"):
-            return True
-        if call_name(n) in ("atoms", "intersection", "union", "difference", "symmetric_difference"):
-            return True
-    if isinstance(n, ast.BinOp) and isinstance(n.op, (ast.BitAnd, ast.BitOr, ast.BitXor)):
-        return is_set_expr(n.left) or is_set_expr(n.right)
-    return False
+# ====================================================================== R19a (2): iteration order of sets
+# Order taint: every ordered read of an unordered collection (loop, comprehension, list()/tuple()/unpacking/join/pop) is
+# followed through names, containers and derived sequences to its consumers.  Order-free consumers (membership, any/all/
+# len/sum/min/max/sorted/set/Counter, commutative Add/Mul, set.add, keyed stores, commutative accumulation, diagnostics)
+# end the taint; a return/yield, an argument of another function, indexing, an effect performed per element ... is a
+# sink.  Sinks are violations unless the site is a frozen, reasoned exception keyed by function and origin of the set.
+
+ORDER_FREE_CALLS = {"sorted", "set", "frozenset", "any", "all", "sum", "len", "min", "max", "Mul", "Add", "Counter", "bool"}
+PASS_THROUGH_CALLS = {"list", "tuple", "enumerate", "zip", "reversed", "iter", "map", "filter", "chain", "from_iterable",
+                      "product", "permutations", "combinations", "combinations_with_replacement", "islice", "deque"}
+SET_METHODS = {"atoms", "intersection", "union", "difference", "symmetric_difference", "free_symbols"}
+ORDER_FREE_EFFECTS = {"add", "update", "discard", "setdefault", "debug", "info", "warning", "error", "critical", "warn"}
+SEQ_GROW = {"append", "extend", "insert", "appendleft", "extendleft"}
+COMMUTATIVE_AUG = (ast.Add, ast.Mult, ast.BitOr, ast.BitAnd, ast.BitXor, ast.Sub)
+# (function, origin of the set with local names resolved) -> reason
+SET_ORDER_FROZEN = {
+    ("func:evaluate_deltas", "dict filled per element of atoms() over .args .atoms Index expr"):
+        "occurrence counter; the derived list of target indices is only used for membership tests (also in the recursion)",
+    ("spatial_orbitals:transform_to_spatial_orbitals", "set() over .idx .terms expr set"):
+        "old/new index lists are built from one iteration (same-origin zip) and applied through order_substitutions",
+    ("tensor_names:TensorNames.rename_tensors", "atoms() over .atoms .sympy Symbol expr"):
+        "renames of distinct default names to distinct configured names commute",
+    ("generate_code.optimize_contractions:_group_objects",
+     "set display over  | set display over ._split_contracted_and_target Contraction obj_indices target_indices"):
+        "set of small ints (object positions): CPython iterates them independently of the hash seed; the derived index "
+        "tuples are only split into contracted/target sets",
+}
 
 
-def _set_iterations(fn):
-    out = []
-    for n in walk_fn(fn):
-        its = []
-        if isinstance(n, ast.For):
-            its.append((n.iter, n))
-        elif isinstance(n, ast.comprehension):
-            its.append((n.iter, n))
-        for it, node in its:
-            if is_set_expr(it):
-                out.append((it, node))
-            elif isinstance(it, ast.Name):
-                st = enclosing_stmt(it)
-                if st is None:
+class _Scope:
+    """Name bindings of one function body including its comprehensions (nested defs/lambdas read them as closures)."""
+
+    def __init__(self, fn, defs=None):
+        self.fn = fn
+        self.defs = defs or Defs(fn)
+        self.loads = {}
+        self.subscript_stores = {}
+        for n in walk_fn(fn, nested=True):
+            if isinstance(n, ast.Name) and isinstance(n.ctx, ast.Load):
+                self.loads.setdefault(n.id, []).append(n)
+        self.params = {a.arg: a for a in fn.args.posonlyargs + fn.args.args + fn.args.kwonlyargs}
+
+    def values(self, name):
+        return [v for k, v in self.defs.all_defs(name) if k == "assign" and v is not None]
+
+    def is_local(self, name):
+        return bool(self.defs.all_defs(name))
+
+
+class SetOrder:
+    def __init__(self, ctx):
+        self.ctx = ctx
+        self.model = ctx.model
+        self.cg = call_graph(ctx)
+        self._scopes = {}
+        self._ret_unordered = {}
+
+    def scope(self, fn):
+        if id(fn) not in self._scopes:
+            self._scopes[id(fn)] = _Scope(fn, self.cg.defs(fn))
+        return self._scopes[id(fn)]
+
+    # ------------------------------------------------------------ typing
+    def unordered(self, e, sc, depth=5, seen=None):
+        """The value of ``e`` is a set/frozenset (or a dict filled in the order of one)."""
+        seen = set() if seen is None else seen
+        if id(e) in seen or depth < 0:
+            return False
+        seen.add(id(e))
+        if isinstance(e, (ast.Set, ast.SetComp)):
+            return True
+        if isinstance(e, ast.DictComp):
+            return any(self.unordered(self._unwrap(g.iter), sc, depth - 1, seen) for g in e.generators)
+        if isinstance(e, ast.Call):
+            f = e.func
+            if isinstance(f, ast.Name):
+                if f.id in ("set", "frozenset"):
+                    return True
+                if f.id in ("dict", "list", "tuple", "sorted"):
+                    return False
+                for g in self.cg.resolve_name(f.id, e):
+                    if isinstance(g, FuncNode) and self.returns_unordered(g):
+                        return True
+                return False
+            if isinstance(f, ast.Attribute):
+                if f.attr in SET_METHODS:
+                    return True
+                if f.attr in ("copy", "keys", "values", "items"):
+                    return self.unordered(f.value, sc, depth - 1, seen)
+                return False
+        if isinstance(e, ast.BinOp) and isinstance(e.op, (ast.BitAnd, ast.BitOr, ast.BitXor, ast.Sub)):
+            return self.unordered(e.left, sc, depth - 1, seen) or self.unordered(e.right, sc, depth - 1, seen)
+        if isinstance(e, ast.IfExp):
+            return self.unordered(e.body, sc, depth - 1, seen) or self.unordered(e.orelse, sc, depth - 1, seen)
+        if isinstance(e, ast.NamedExpr):
+            return self.unordered(e.value, sc, depth - 1, seen)
+        if isinstance(e, ast.Name):
+            if e.id in sc.params:
+                ann = sc.params[e.id].annotation
+                if ann is not None and U(ann).split("[")[0].split(".")[-1] in ("set", "frozenset", "Set", "FrozenSet", "AbstractSet"):
+                    return True
+            if any(self.unordered(v, sc, depth - 1, seen) for v in sc.values(e.id)):
+                return True
+            return e.id in self.tainted_dicts(sc)
+        if isinstance(e, ast.Attribute) and e.attr in SET_METHODS:
+            return True
+        return False
+
+    def returns_unordered(self, fn):
+        if id(fn) not in self._ret_unordered:
+            self._ret_unordered[id(fn)] = False
+            sc = self.scope(fn)
+            rets = [r.value for r in walk_fn(fn, nested=False) if isinstance(r, ast.Return) and r.value is not None]
+            self._ret_unordered[id(fn)] = bool(rets) and all(self.unordered(r, sc, 3) for r in rets)
+        return self._ret_unordered[id(fn)]
+
+    def tainted_dicts(self, sc):
+        """Dicts that receive new keys inside a loop over an unordered collection (their key order is tainted):
+        name -> the unordered collection"""
+        if not hasattr(sc, "_tdicts"):
+            sc._tdicts = {}
+            for n in walk_fn(sc.fn, nested=False):
+                if not isinstance(n, ast.For):
                     continue
-                live = reaching_assignments(fn, it.id, st)
-                if live and any(is_set_expr(a.value) for a in live):
-                    out.append((it, node))
-    return out
+                srcs = [s for s in self._sources(n.iter) if self.unordered(s, sc, 3)]
+                if not srcs:
+                    continue
+                for x in ast.walk(ast.Module(body=n.body, type_ignores=[])):
+                    tg = []
+                    if isinstance(x, ast.Assign):
+                        tg = x.targets
+                    elif isinstance(x, ast.AugAssign):
+                        tg = [x.target]
+                    for t in tg:
+                        if isinstance(t, ast.Subscript) and isinstance(t.value, ast.Name) and \
+                                any(isinstance(v, (ast.Dict, ast.DictComp)) or (isinstance(v, ast.Call) and
+                                    call_name(v) in ("dict", "defaultdict", "OrderedDict")) for v in sc.values(t.value.id)):
+                            sc._tdicts.setdefault(t.value.id, srcs[0])
+        return sc._tdicts
+
+    @staticmethod
+    def _unwrap(e):
+        """enumerate(S), zip(S, ..), map(f, S), list(S) ... read S in order"""
+        while isinstance(e, ast.Call) and call_name(e) in PASS_THROUGH_CALLS and e.args:
+            nxt = None
+            for a in e.args:
+                if not isinstance(a, (ast.Lambda, ast.Constant)):
+                    nxt = a
+                    break
+            if nxt is None:
+                break
+            e = nxt
+        return e
+
+    def _sources(self, e):
+        """the iterables read by an iteration expression (all arguments of zip/chain/product ...)"""
+        if isinstance(e, ast.Call) and call_name(e) in PASS_THROUGH_CALLS and e.args:
+            out = []
+            for a in e.args:
+                if isinstance(a, ast.Starred):
+                    a = a.value
+                if not isinstance(a, (ast.Lambda, ast.Constant)):
+                    out.extend(self._sources(a))
+            return out
+        return [e]
+
+    # ------------------------------------------------------------ sites
+    def sites(self, fn):
+        """(expression that is the unordered collection, node that reads it in order)"""
+        sc = self.scope(fn)
+        out = []
+        for n in walk_fn(fn, nested=True):
+            if isinstance(n, FuncNode):
+                continue
+            reads = []
+            if isinstance(n, (ast.For, ast.comprehension)):
+                reads = [(s, n) for s in self._sources(n.iter)]
+            elif isinstance(n, ast.Call):
+                f = n.func
+                par = getattr(n, "_parent", None)
+                if isinstance(par, (ast.For, ast.comprehension)) and par.iter is n:
+                    continue
+                if isinstance(par, ast.Call) and call_name(par) in PASS_THROUGH_CALLS and n in par.args:
+                    continue    # read by the outer wrapper
+                if isinstance(f, ast.Name) and f.id in PASS_THROUGH_CALLS | {"next", "str", "repr"} and n.args:
+                    reads = [(s, n) for s in self._sources(n)] if f.id in PASS_THROUGH_CALLS else [(self._unwrap(n.args[0]), n)]
+                elif isinstance(f, ast.Attribute) and f.attr == "join" and n.args:
+                    reads = [(s, n) for s in self._sources(n.args[0])]
+                elif isinstance(f, ast.Attribute) and f.attr == "pop" and not n.args:
+                    reads = [(f.value, n)]
+                for a in n.args:
+                    if isinstance(a, ast.Starred) and not (isinstance(f, ast.Name) and f.id in PASS_THROUGH_CALLS):
+                        reads.append((a.value, a))
+            elif isinstance(n, (ast.List, ast.Tuple)) and isinstance(n.ctx, ast.Load):
+                reads = [(x.value, x) for x in n.elts if isinstance(x, ast.Starred)]
+            elif isinstance(n, ast.Assign) and len(n.targets) == 1 and isinstance(n.targets[0], (ast.Tuple, ast.List)):
+                reads = [(n.value, n)]      # unpacking
+            for src, node in reads:
+                owner = self.scope(enclosing(src, FuncNode) or fn)
+                if self.unordered(src, owner):
+                    out.append((src, node, owner))
+        return out
+
+    # ------------------------------------------------------------ consumers
+    def sinks_of_read(self, src, node, sc):
+        """order-sensitive consumers reached from one ordered read; [] means the order cannot be observed"""
+        self.seen = set()
+        self.sc = sc
+        if isinstance(node, ast.For):
+            return self.loop_sinks(node)
+        if isinstance(node, ast.comprehension):
+            comp = node._parent
+            if isinstance(comp, ast.SetComp):
+                return []
+            if isinstance(comp, ast.DictComp):
+                return self.value_sinks(comp)       # key order follows the set; followed like a sequence
+            return self.value_sinks(comp)
+        if isinstance(node, ast.Starred):
+            return self.value_sinks(node)
+        if isinstance(node, ast.Assign):
+            return [] if self.singleton(src, node) else [(node, "unpacked into names")]
+        if isinstance(node, ast.Call) and call_name(node) in ("next", "pop"):
+            return [] if self.singleton(src, node) else [(node, "one element selected")]
+        if isinstance(node, ast.Call) and call_name(node) in ("str", "repr"):
+            return self.value_sinks(node)
+        return self.value_sinks(node)
+
+    def singleton(self, src, at):
+        """``len(src) == 1`` is established (assert / enclosing branch) where ``at`` is evaluated"""
+        if not isinstance(src, ast.Name):
+            return False
+        sx = Symex(self.model, what="guard")
+        sx.prefix, sx.decisions, sx.facts, sx.path, sx.effects, sx.steps, sx.depth = [], [], {}, [], [], 0, 0
+        names = {n.id for n in ast.walk(self.sc.fn) if isinstance(n, ast.Name)} - {"len"}
+        sx.frames, sx.module = [{n: sym(n) for n in names if self.sc.is_local(n) or n in self.sc.params}], self.sc.fn._module
+        want = t_cmp("==", T("call", "len", (sym(src.id),), ()), 1)
+
+        def holds(test, pol):
+            try:
+                t = sx.ev(test)
+            except AnalysisError:
+                return False
+            if not pol:
+                t = t_not(t) if isinstance(t, T) else (not t)
+            return isinstance(t, T) and (t == want or (t.op == "and" and want in t.args))
+        child = at
+        for p in parents(at):
+            if isinstance(p, ast.If):
+                if any(child is s for s in p.body) and holds(p.test, True):
+                    return True
+                if any(child is s for s in p.orelse) and holds(p.test, False):
+                    return True
+            if isinstance(p, ast.IfExp) and ((child is p.body and holds(p.test, True)) or (child is p.orelse and holds(p.test, False))):
+                return True
+            for field in ("body", "orelse", "finalbody"):
+                lst = getattr(p, field, None)
+                if isinstance(lst, list) and any(child is s for s in lst):
+                    for s in lst:
+                        if s is child:
+                            break
+                        if isinstance(s, ast.Assert) and holds(s.test, True):
+                            return True
+                        if isinstance(s, ast.If) and not s.orelse and common_always_exits(s.body) and holds(s.test, False):
+                            return True
+                        if any(isinstance(b, ast.Name) and isinstance(b.ctx, ast.Store) and b.id == src.id for b in ast.walk(s)) \
+                                and not isinstance(s, ast.Assert):
+                            pass
+            if isinstance(p, FuncNode):
+                break
+            child = p
+        return False
+
+    def _diagnostic(self, n):
+        """inside a raise statement / logging call: text of a message only"""
+        for p in [n] + list(parents(n)):
+            if isinstance(p, ast.Raise):
+                return True
+            if isinstance(p, ast.Call) and call_name(p) in ("debug", "info", "warning", "error", "critical", "warn", "print"):
+                return True
+            if isinstance(p, ast.Assert) and p.msg is not None and any(x is n for x in ast.walk(p.msg)):
+                return True
+            if isinstance(p, ast.stmt):
+                return False
+        return False
+
+    def value_sinks(self, v, nested=False):
+        """Consumers of an order-tainted value: a sequence/string whose order follows the set, or (``nested``) a container
+        whose elements are such sequences."""
+        if (id(v), nested) in self.seen:
+            return []
+        self.seen.add((id(v), nested))
+        p = getattr(v, "_parent", None)
+        if p is None:
+            return [(v, "escapes")]
+        if self._diagnostic(v):
+            return []
+        if isinstance(p, ast.Starred):
+            return self.value_sinks(p, nested)
+        if isinstance(p, ast.keyword):
+            call = p._parent
+            return [] if call_name(call) in ORDER_FREE_CALLS and not nested else [(call, f"passed to {call_name(call)}(..)")]
+        if isinstance(p, ast.Call):
+            nm = call_name(p)
+            if nm in ORDER_FREE_CALLS and not nested:
+                return []
+            if nm in PASS_THROUGH_CALLS or nm in ("str", "repr", "join", "dict", "OrderedDict", "array"):
+                return self.value_sinks(p, nested)
+            if isinstance(p.func, ast.Attribute) and nm in ("add", "update", "discard", "difference_update", "intersection_update",
+                                                             "issubset", "issuperset", "isdisjoint", "intersection", "union", "difference") \
+                    and not nested:
+                return []
+            if isinstance(p.func, ast.Attribute) and nm in SEQ_GROW | {"add", "update", "setdefault"}:
+                return self.container_sinks(p.func.value, p, nested=True)
+            return [(p, f"passed to {nm}(..)")]
+        if isinstance(p, ast.Attribute):        # v.method(...) / v.attr
+            call = getattr(p, "_parent", None)
+            if not (isinstance(call, ast.Call) and call.func is p):
+                return [(p, f"attribute .{p.attr} of the ordered value")]
+            m = p.attr
+            if m in ("items", "values", "keys", "copy"):
+                return self.value_sinks(call, nested)
+            if m in ("get", "pop", "setdefault", "__getitem__"):
+                return self.value_sinks(call, False) if nested else ([(call, f".{m}() of the ordered value")] if m == "pop" else [])
+            if m in ("count", "__contains__", "issubset", "issuperset", "isdisjoint", "add", "update", "discard", "clear", "remove",
+                     "sort", "startswith", "endswith") or m in SEQ_GROW:
+                return []
+            return [(call, f"method .{m}() of the ordered value")]
+        if isinstance(p, ast.Compare):
+            ops = p.ops
+            if len(ops) == 1 and isinstance(ops[0], (ast.In, ast.NotIn)):
+                return [] if p.comparators[0] is v else self.value_sinks(p, nested)
+            if any(isinstance(o, (ast.Is, ast.IsNot)) for o in ops):
+                return []
+            return [(p, "order-sensitive comparison")]
+        if isinstance(p, ast.UnaryOp) and isinstance(p.op, ast.Not):
+            return []
+        if isinstance(p, (ast.BoolOp, ast.UnaryOp)):
+            return self.value_sinks(p, nested)
+        if isinstance(p, (ast.If, ast.While, ast.Assert)):
+            return []
+        if isinstance(p, ast.IfExp):
+            return [] if p.test is v else self.value_sinks(p, nested)
+        if isinstance(p, ast.Expr):
+            return []
+        if isinstance(p, (ast.Return, ast.Yield, ast.YieldFrom)):
+            return [(p, "returned" if isinstance(p, ast.Return) else "yielded")]
+        if isinstance(p, ast.Lambda):
+            return [(p, "result of a lambda")]
+        if isinstance(p, (ast.JoinedStr, ast.FormattedValue)):
+            return self.value_sinks(p, nested)
+        if isinstance(p, ast.BinOp):
+            return self.value_sinks(p, nested)
+        if isinstance(p, (ast.Tuple, ast.List, ast.Set)):
+            if isinstance(getattr(p, "ctx", None), ast.Store):
+                return [(p, "unpacked")]
+            return self.value_sinks(p, True)
+        if isinstance(p, ast.Dict):
+            return self.value_sinks(p, True)
+        if isinstance(p, ast.Subscript):
+            if p.value is v:
+                if isinstance(p.ctx, (ast.Store, ast.Del)):
+                    return []
+                return self.value_sinks(p, False) if nested else [(p, "indexed")]
+            return self.value_sinks(p, nested) if isinstance(p.ctx, ast.Load) else []
+        if isinstance(p, ast.comprehension):
+            if p.iter is v or any(v is s for s in self._sources(p.iter)):
+                comp = p._parent
+                out = []
+                if nested:
+                    for t in ast.walk(p.target):
+                        if isinstance(t, ast.Name):
+                            out.extend(self.comp_name_sinks(t.id, comp))
+                return out + ([] if isinstance(comp, ast.SetComp) else self.value_sinks(comp, False))
+            return []       # used in a condition
+        if isinstance(p, (ast.ListComp, ast.GeneratorExp, ast.SetComp, ast.DictComp)):
+            # element expression of a comprehension: the result holds the tainted value
+            return self.value_sinks(p, True)
+        if isinstance(p, ast.For):
+            if p.iter is v:
+                out = self.loop_sinks(p)
+                if nested:
+                    for t in ast.walk(p.target):
+                        if isinstance(t, ast.Name):
+                            out.extend(self.name_sinks(t.id, p.target, False))
+                return out
+            return []
+        if isinstance(p, ast.NamedExpr):
+            return self.name_sinks(p.target.id, p, nested) + self.value_sinks(p, nested)
+        if isinstance(p, (ast.Assign, ast.AnnAssign, ast.AugAssign)):
+            tgts = p.targets if isinstance(p, ast.Assign) else [p.target]
+            out = []
+            for t in tgts:
+                if isinstance(t, ast.Name):
+                    out.extend(self.name_sinks(t.id, p, nested))
+                elif isinstance(t, ast.Subscript):
+                    out.extend(self.container_sinks(t.value, p, nested=True))
+                elif isinstance(t, ast.Attribute):
+                    out.append((p, f"stored in .{t.attr}"))
+                else:
+                    out.append((p, "unpacked into names"))
+            return out
+        if isinstance(p, (ast.withitem, ast.With)):
+            return [(p, "context manager")]
+        if isinstance(p, ast.Raise):
+            return []
+        return [(p, f"used in {type(p).__name__}")]
+
+    def container_sinks(self, recv, at, nested=False):
+        """an element was put into the container ``recv`` in tainted order (``nested``: the element itself is an ordered
+        value): follow the container"""
+        depth = 0
+        base = recv
+        while isinstance(base, (ast.Subscript, ast.Attribute)) and not (isinstance(base, ast.Attribute) and isinstance(base.value, ast.Name) and base.value.id in ("self", "cls")):
+            depth += isinstance(base, ast.Subscript)
+            base = base.value
+        if isinstance(base, ast.Name) and base.id not in ("self", "cls"):
+            return self.name_sinks(base.id, at, nested or depth > 0)
+        return [(at, f"stored in {short(recv, 40)}")]
+
+    def name_sinks(self, name, at, nested=False):
+        """all reads of a local name that holds an order-tainted value"""
+        key = ("name", name, id(self.sc), nested)
+        if key in self.seen:
+            return []
+        self.seen.add(key)
+        out = []
+        if name in self.sc.params and not self.sc.values(name) and isinstance(at, ast.Call):
+            out.append((at, f"the caller's `{name}` is filled in iteration order"))
+        inside = {id(x) for x in ast.walk(at)}
+        for use in self.sc.loads.get(name, []):
+            if id(use) in inside:
+                continue
+            out.extend(self.value_sinks(use, nested))
+        return out
+
+    def comp_name_sinks(self, name, comp):
+        out = []
+        for use in ast.walk(comp):
+            if isinstance(use, ast.Name) and isinstance(use.ctx, ast.Load) and use.id == name:
+                out.extend(self.value_sinks(use, False))
+        return out
+
+    def loop_sinks(self, loop):
+        """effects of a loop whose iteration order is tainted"""
+        if id(loop) in self.seen:
+            return []
+        self.seen.add(id(loop))
+        out = []
+        stored = set()
+        for t in ast.walk(loop.target):
+            if isinstance(t, ast.Name):
+                stored.add(t.id)
+        body = ast.Module(body=list(loop.body) + list(loop.orelse), type_ignores=[])
+        for n in ast.walk(body):
+            if isinstance(n, ast.Name) and isinstance(n.ctx, ast.Store):
+                stored.add(n.id)
+        for n in ast.walk(body):
+            if isinstance(n, ast.Return):
+                if n.value is not None and not isinstance(n.value, ast.Constant) and ({x.id for x in ast.walk(n.value) if isinstance(x, ast.Name)} & stored):
+                    out.append((n, "value of one element returned from the loop"))
+            elif isinstance(n, (ast.Yield, ast.YieldFrom)):
+                out.append((n, "yielded per element"))
+            elif isinstance(n, ast.Break):
+                if enclosing(n, (ast.For, ast.While)) is loop and self._used_after(loop, stored):
+                    out.append((n, "loop left at the first matching element and its value is used afterwards"))
+            elif isinstance(n, ast.Expr) and isinstance(n.value, ast.Call):
+                c = n.value
+                nm = call_name(c)
+                if self._diagnostic(c) or nm in ORDER_FREE_EFFECTS:
+                    continue
+                if isinstance(c.func, ast.Attribute) and nm in SEQ_GROW | {"remove", "pop", "clear", "sort", "reverse"}:
+                    if nm in SEQ_GROW:
+                        out.extend(self.container_sinks(c.func.value, c))
+                    elif nm in ("remove", "clear", "sort"):
+                        continue
+                    else:
+                        out.append((c, f".{nm}() per element"))
+                    continue
+                out.append((c, f"effect {nm}(..) performed per element"))
+            elif isinstance(n, ast.AugAssign):
+                t = n.target
+                if isinstance(n.op, COMMUTATIVE_AUG) or (isinstance(n.op, ast.Sub)):
+                    if isinstance(t, ast.Name) and self._sequence_like(t.id):
+                        out.extend(self.name_sinks(t.id, n))
+                    continue
+                out.append((n, "non-commutative accumulation"))
+            elif isinstance(n, ast.Assign):
+                for t in n.targets:
+                    for x in ast.walk(t):
+                        if isinstance(x, ast.Attribute) and isinstance(x.ctx, ast.Store):
+                            out.append((n, f"attribute .{x.attr} overwritten per element"))
+        # a plain local assigned in the body and read after the loop holds the value of the last element
+        last = self._used_after(loop, stored - {x.id for x in ast.walk(loop.target) if isinstance(x, ast.Name)}, plain_only=True)
+        if last:
+            out.append((loop, f"`{sorted(last)[0]}` holds the value of the last iteration after the loop"))
+        return out
+
+    def _sequence_like(self, name):
+        for v in self.sc.values(name):
+            if isinstance(v, (ast.List, ast.Tuple, ast.ListComp, ast.JoinedStr)) or (isinstance(v, ast.Constant) and isinstance(v.value, str)) \
+                    or (isinstance(v, ast.Call) and call_name(v) in ("list", "tuple", "str")):
+                return True
+        return False
+
+    def _used_after(self, loop, names, plain_only=False):
+        """names bound inside the loop that are read after it before any other binding"""
+        end = getattr(loop, "end_lineno", loop.lineno)
+        inside = {id(x) for x in ast.walk(loop)}
+        hit = set()
+        for nm in names:
+            binds = [b for b in ast.walk(loop) if isinstance(b, ast.Name) and isinstance(b.ctx, ast.Store) and b.id == nm]
+            if plain_only:
+                binds = [b for b in binds if isinstance(enclosing_stmt(b), (ast.Assign, ast.AnnAssign)) and
+                         not isinstance(getattr(b, "_parent", None), ast.comprehension)]
+            if not binds:
+                continue
+            later = min((b.lineno for b in ast.walk(self.sc.fn) if isinstance(b, ast.Name) and isinstance(b.ctx, ast.Store)
+                            and b.id == nm and id(b) not in inside and b.lineno > end), default=None)
+            for use in self.sc.loads.get(nm, []):
+                if id(use) in inside or use.lineno <= end:
+                    continue
+                if later is None or use.lineno < later or (use.lineno == later and isinstance(enclosing_stmt(use), ast.AugAssign)):
+                    hit.add(nm)
+        return hit
 
 
-def _benign_consumer(node) -> str | None:
-    """order-insensitive use of the sequence produced by a comprehension"""
-    if isinstance(node, ast.comprehension):
-        comp = node._parent
-        if isinstance(comp, (ast.SetComp, ast.DictComp)):
-            return "builds a set/dict"
-        p = comp._parent
-        hops = 0
-        while isinstance(p, (ast.Starred,)) or (isinstance(p, ast.Call) and call_name(p) in ("tuple", "list") and hops < 2):
-            p = p._parent
-            hops += 1
-        if isinstance(p, ast.Call) and call_name(p) in ORDER_FREE_CALLS:
-            return f"consumed by {call_name(p)}(...)"
-        if isinstance(p, ast.keyword) and isinstance(p._parent, ast.Call) and call_name(p._parent) in ORDER_FREE_CALLS:
-            return f"consumed by {call_name(p._parent)}(...)"
-        return None
-    # for loop: body only stores keyed by the element / adds to sets / counts
-    ok = True
-    for s in ast.walk(ast.Module(body=node.body, type_ignores=[])):
-        if isinstance(s, ast.Call) and call_name(s) in ("append", "extend", "insert") and isinstance(s.func, ast.Attribute):
-            ok = False
-        if isinstance(s, (ast.Return, ast.Yield)):
-            ok = False
-        if isinstance(s, ast.AugAssign) and isinstance(s.target, ast.Name) and not isinstance(s.op, (ast.Add, ast.Mult)):
-            ok = False
-    return "loop body only adds to sets / keyed stores / commutative accumulation" if ok else None
+def _origin(so, src, sc, depth=3):
+    """Where the unordered collection comes from: the expression with singly-defined local names resolved, a name with
+    several definitions replaced by the origins of its set-valued definitions, the other local names blanked."""
+    if isinstance(src, ast.Name) and src.id in so.tainted_dicts(sc) and not so.unordered(src, sc, 3, {id(src)}) is False and depth:
+        vals = [v for v in sc.values(src.id) if so.unordered(v, sc, 3)]
+        if not vals:
+            return "dict filled per element of " + _origin(so, so.tainted_dicts(sc)[src.id], sc, depth - 1)
+    if isinstance(src, ast.Call) and isinstance(src.func, ast.Attribute) and src.func.attr in ("items", "keys", "values") \
+            and isinstance(src.func.value, ast.Name) and src.func.value.id in so.tainted_dicts(sc) and depth:
+        return "dict filled per element of " + _origin(so, so.tainted_dicts(sc)[src.func.value.id], sc, depth - 1)
+    if isinstance(src, ast.Name) and len(sc.values(src.id)) > 1 and depth:
+        alts = sorted({_origin(so, v, sc, depth - 1) for v in sc.values(src.id) if so.unordered(v, sc, 3)})
+        if alts:
+            return " | ".join(alts)
+    r = sc.defs.resolve(src, depth=4, loops=True)
+    vocab = set()
+    for n in ast.walk(r):
+        if isinstance(n, ast.Attribute):
+            vocab.add("." + n.attr)
+        elif isinstance(n, ast.Name) and n.id != "__elem__" and (n.id in sc.params or not sc.is_local(n.id)):
+            vocab.add(n.id)
+    kind = "set display" if isinstance(r, (ast.Set, ast.SetComp)) else "dict" if isinstance(r, (ast.Dict, ast.DictComp)) else \
+        (call_name(r) + "()") if isinstance(r, ast.Call) else type(r).__name__
+    return f"{kind} over {' '.join(sorted(vocab))}"
 
 
-def r19a(ctx):
+def r19a_sets(ctx):
     rule = "R19a"
-    # (1) hash / id inside sort keys
-    keyfuncs = {}
-    n_keys = 0
-    for ref, fn in ctx.model.all_functions():
-        for c in calls_in(fn, nested=False):
-            k = kwarg(c, "key")
-            if k is None or call_name(c) not in ("sorted", "sort", "min", "max", "_sort_anticommuting_fermions"):
-                continue
-            n_keys += 1
-            if isinstance(k, ast.Lambda):
-                bad = [x for x in ast.walk(k.body) if isinstance(x, ast.Call) and isinstance(x.func, ast.Name) and x.func.id in ("hash", "id")]
-                ctx.check(rule, k, not bad, "lambda sort key free of hash()/id()",
-                          f"sort key `{short(k, 60)}` uses hash()/id(): the order depends on the interpreter's hash seed / addresses",
-                          fn=ref, key=f"lambda key {short(k, 40)}")
-                for x in ast.walk(k.body):
-                    if isinstance(x, ast.Call) and isinstance(x.func, ast.Name):
-                        keyfuncs.setdefault(x.func.id, []).append(ref)
-            elif isinstance(k, ast.Name):
-                keyfuncs.setdefault(k.id, []).append(ref)
-    ctx.floor(rule, "sort/min/max sites with a key", n_keys, 20)
-    for name, users in sorted(keyfuncs.items()):
-        for mod in ctx.model.modules.values():
-            f = mod.functions.get(name)
-            if f is None:
-                continue
-            bad = [x for x in ast.walk(f) if isinstance(x, ast.Call) and isinstance(x.func, ast.Name) and x.func.id in ("hash", "id")]
-            for b in bad:
-                ctx.bad(rule, b, f"`{U(b)}` inside `{name}`, which is used as sort key at {len(users)} site(s): the canonical "
-                        "order of tied elements (and with it the printed text and term count) depends on PYTHONHASHSEED",
-                        fn=f"{mod.name}:{name}", key=f"{U(b)} in key {name}")
-            if not bad:
-                ctx.ok(rule, f, f"key function {name} free of hash()/id() ({len(users)} users)", fn=f"{mod.name}:{name}")
-    # (2) set iteration
+    so = SetOrder(ctx)
     n_sites = 0
     for ref, fn in ctx.model.all_functions():
         if getattr(fn, "_fn", None) is not None:
             continue
-        for it, node in _set_iterations(fn):
-            owner = enclosing(it, FuncNode)
-            oref = f"{ref.split(':')[0]}:{owner._qual}" if owner is not None else ref
+        for src, node, sc in so.sites(fn):
             n_sites += 1
-            why = _benign_consumer(node)
-            frozen = SET_ITER_FROZEN.get((oref, U(it))) or SET_ITER_FROZEN.get((ref, U(it)))
-            if why:
-                ctx.ok(rule, it, f"set iteration `{short(it, 40)}`: {why}", fn=oref, key=f"{oref} {U(it)}")
+            oref = f"{ref.split(':')[0]}:{sc.fn._qual}"
+            origin = _origin(so, src, sc)
+            sinks = so.sinks_of_read(src, node, sc)
+            frozen = SET_ORDER_FROZEN.get((oref, origin))
+            key = f"{oref} {origin}"
+            if not sinks:
+                ctx.ok(rule, src, f"order of the set `{short(src, 40)}` is not observable: all consumers are order-free", fn=oref, key=key)
             elif frozen:
-                ctx.ok(rule, it, f"set iteration `{short(it, 40)}`: triaged - {frozen}", fn=oref, key=f"{oref} {U(it)}")
+                ctx.ok(rule, src, f"set `{short(src, 40)}` read in order: triaged - {frozen}", fn=oref, key=key)
             else:
-                ctx.bad(rule, it, f"iteration over the set `{short(it, 50)}` builds an ordered result "
-                        f"(`{short(enclosing_stmt(it), 80)}`): its order depends on the hash seed", fn=oref,
-                        key=f"set iteration {U(it)[:50]}")
-    ctx.floor(rule, "set iteration sites examined", n_sites, 15)
+                s, why = sinks[0]
+                ctx.bad(rule, src, f"the set `{short(src, 50)}` (origin `{origin}`) is read in iteration order and that order reaches "
+                        f"`{short(s, 70)}` ({why}; {len(sinks)} order-sensitive consumer(s)): the result depends on the hash seed",
+                        fn=oref, key=f"set order {origin[:60]}")
+    ctx.floor(rule, "ordered reads of sets examined", n_sites, 15)
 
 
 # ====================================================================== R19g
@@ -1047,7 +1495,7 @@ def run(ctx):
         c08.r08c(ctx)
     if ctx.want("R19a"):
         r19a_keys(ctx)
-        r19a(ctx)
+        r19a_sets(ctx)
     if ctx.want("R19b"):
         r19b(ctx)
     if ctx.want("R08d"):
